@@ -258,7 +258,8 @@ def run (ctx):
       ps_ = [a.arg for a in mtn.args.args]
       gm_ = q.cfg_of(mt_)
       outs = set()
-      for pend, reg, lst, old, op, want in (({5: 0}, {5: 1}, [5], set(), 4, {5: 4}), ({}, {5: 1}, [5], set(), 4, {5: 5}), ({5: 5}, {5: 1}, [], {5}, 4, {5: 1}), ({}, {}, [7], set(), 1, {7: 1})):
+      for pend, reg, lst, old, op, want in (({5: 0}, {5: 1}, [5], set(), 4, {5: 4}), ({}, {5: 1}, [5], set(), 4, {5: 5}), ({5: 5}, {5: 1}, [], {5}, 4, {5: 1}), ({}, {}, [7], set(), 1, {7: 1}),
+                                               ({5: 5}, {5: 4}, [], {5}, 4, {5: 1}), ({5: 1}, {}, [5], set(), 4, {5: 5})):
         if len(ps_) != 3: outs.add('?'); break
         env_ = q.Env({'modify': dict(pend), 'self.registered': dict(reg), ps_[0]: list(lst), ps_[1]: set(old), ps_[2]: op}, [((lambda e: isinstance(e, ast.Call) and call_name(e) == 'hasattr'), False)])
         got = set()
@@ -270,9 +271,9 @@ def run (ctx):
       if '?' in outs:
         ctx.undecided('R-AGREE', es_, "epoll masks follow the lists of the current call", "modify_table not evaluable on the samples", es_, 'D4')
       else:
-        ctx.ob('R-AGREE', es_, "epoll masks follow the lists of the current call", not outs, "4 scenarios" if not outs else
-               "with pending changes %s, registered %s, list %s and op %s the helper leaves %s, expected %s: a descriptor that left the read list and entered the write list in the same call stays registered for reading - "
-               "epoll reports it readable and _select indexes a waiter that is not there (KeyError ends the hub)" % sorted(outs, key=str)[0], es_, 'D4')
+        ctx.ob('R-AGREE', es_, "epoll masks follow the lists of the current call", not outs, "6 scenarios" if not outs else
+               "with pending changes %s, registered %s, list %s and op %s the helper leaves %s, expected %s: the mask epoll is given for the descriptor is not what the three lists of this call ask for - "
+               "a task waiting on it is never resumed, or epoll reports it for a list it has left and _select indexes a waiter that is not there (KeyError ends the hub)" % sorted(outs, key=str)[0], es_, 'D4')
   # a variable that an except-handler inside a loop sets, and that the rest of the iteration tests, starts every iteration fresh
   for fn_ in [f_ for c_ in mod.classes.values() for f_ in c_.methods.values()]:
     gf_ = q.cfg_of(fn_)
@@ -347,6 +348,16 @@ def run (ctx):
   ctx.ob('R-AGREE', ra, "an exception in the sub-task becomes the caller's exception", len(st_re) >= 2 and all(norm(v) == 'sys.exc_info()' for n, v in st_re), "parent.task.re = sys.exc_info() (%d sites)" % len(st_re), ra, 'D6')
   for n, v in st_rv + st_re:
     ctx.ob('R-ORDER', ra, "result is stored before the caller is rescheduled (`%s`)" % n.text(40), all(r_ in g4.reachable(n) and n not in g4.reachable(r_) for r_ in rs), "store precedes fast_schedule", (mod, n.ast), 'D6')
+  # whatever runs the sub-generator's code (send / throw / close / next) can raise anything: outside a handler the exception
+  # leaves run_again and the waiting caller is never rescheduled
+  gp = ra.params[1] if len(ra.params) > 1 else 'g'
+  drv = [n_ for n_ in g4.nodes if any((isinstance(c_.func, ast.Attribute) and c_.func.attr in ('send', 'throw', 'close', '__next__') and norm(c_.func.value) == gp) or
+                                      (call_name(c_) == 'next' and c_.args and norm(c_.args[0]) == gp) for c_ in q.node_calls(n_))]
+  ctx.floor('sub-generator driving calls', len(drv), 1)
+  for n_ in drv:
+    esc = g4.raises_out(n_)
+    ctx.ob('R-CONTAIN', ra, "an exception out of the sub-generator's code cannot skip rescheduling the caller (`%s`)" % n_.text(40), not esc, "inside a handler" if not esc else
+           "`%s` runs code of the sub-task (a `finally:` that yields or raises makes close() raise) outside any handler: the exception ends run_again before the caller is rescheduled - the task that called the sub-task waits forever" % n_.text(40), (mod, n_.ast), 'D6')
   thr = [c for c in calls_in(ra.node, nested=True) if call_name(c) == 'throw']
   ctx.ob('R-AGREE', ra, "an exception thrown into the sub-task's wait is forwarded into the sub-generator", bool(thr), norm(thr[0]) if thr else "no g.throw", ra, 'D6')
   # sys.exc_info() describes the exception being handled only while the handler runs: inside a lambda / nested def it is
